@@ -84,6 +84,13 @@ class BatchedMonitor(taps.Monitor):
                 ctx.tap("containment_mask", "calls"); ctx.tap("containment_mask", "checked")
             return
         r = np.asarray(r)
+        if isinstance(t, AbstractPWA):
+            # success means every point was inside: none may be clearly outside the source triangulation
+            inside, outside = containment(st["x"].astype(float), twin.source.points, np.asarray(twin.source.trilist))
+            ctx.tap("containment_mask", "calls"); ctx.tap("containment_mask", "checked")
+            if outside.any():
+                ctx.fail("out_of_domain_points_not_reported", cls=cls, mech=bsk, n_outside=int(outside.sum()), n_points=int(len(outside)))
+                return
         if r.shape != t_res.shape or r.dtype != t_res.dtype or not np.array_equal(r, t_res):
             e = tx.maxdiff(r, t_res)
             ctx.fail("result_differs_from_a_history_free_twin", cls=cls, mech=bsk, err=e, dtype="%s_vs_%s" % (r.dtype, np.asarray(t_res).dtype))
@@ -166,7 +173,7 @@ def w_history(ctx, rng, i):
     for step in range(int(rng.integers(5, 31 if ctx.tier == "thorough" else 16))):
         who = live[rng.integers(0, len(live))]
         ev = ["fresh", "same_object_edited", "near_equal", "other_size", "shape", "on_copy", "repeat_values", "retry_failed",
-              "int_or_f32"][rng.integers(0, 9)]
+              "int_or_f32", "on_shared_edges"][rng.integers(0, 10)]
         n = n0
         outside = 0.35 if (is_pwa and rng.random() < 0.35) else 0.0
         if ev == "fresh" or prev is None:
@@ -190,6 +197,22 @@ def w_history(ctx, rng, i):
             live.append(c)
             x = prev.copy()
             who = c
+        elif ev == "on_shared_edges":
+            if not is_pwa:
+                continue
+            # points exactly on mesh vertices / shared edges (as integer pixel grids over integer meshes are), mixed with
+            # a few points outside the domain
+            sp, tl = who.source.points, np.asarray(who.source.trilist)
+            k = int(rng.integers(3, 10))
+            verts = sp[rng.integers(0, len(sp), k)]
+            e = tl[rng.integers(0, len(tl), k)]
+            mids = 0.5 * (sp[e[:, 0]] + sp[e[:, 1]])
+            x = np.vstack([verts, mids])
+            n_out = int(rng.integers(0, 4))
+            if n_out:
+                far = rng.uniform(1.3 * tx.BOX, 2 * tx.BOX, (n_out, 2)) * rng.choice([-1, 1], (n_out, 2))
+                x = np.vstack([x, far])
+            x = x[rng.permutation(len(x))]
         elif ev == "int_or_f32":
             x = np.round(domain_points(rng, who, d, n, 0.0))
             x = x.astype([np.int64, np.float32, np.int32][rng.integers(0, 3)])
